@@ -3,10 +3,10 @@ CONSTANTS
   Initial = 1
   Boot = 0
   Batch = 2
-  Ckpt = {4}
+  Ckpt = {}
   TwoPart = {2, 5}
-  ValChg = {1}
-  ParChg = {2}
+  ValChg = {2}
+  ParChg = {3}
   MaxCrashes = 1
   MaxPrunes = 1
   Weak_SaveMetaBeforeParts = FALSE
@@ -15,8 +15,8 @@ CONSTANTS
   Weak_DeleteBeforeBaseMove = FALSE
   Weak_IntermediateBaseOffByOne = FALSE
   Weak_PruneDropsLastChanged = FALSE
-  Weak_PruneDropsCheckpoint = TRUE
-  Weak_RecoveryDropsParamUpdates = FALSE
+  Weak_PruneDropsCheckpoint = FALSE
+  Weak_RecoveryDropsParamUpdates = TRUE
   Weak_PruneDropsParamsChanged = FALSE
 INIT Init
 NEXT Next
